@@ -33,7 +33,12 @@ from ..common import rat, unrat
 PROP = "C16"
 RULE = ("exhaustive Pauli strings on <=3 qubits + random strings on <=5 (thorough 6) qubits at rational-circle times; "
         "terms on qubits up to 13 (two-digit indices, matrices on the touched qubits); coefficient x time of magnitudes "
-        "2^-45 x 2^45; times given as float / int / numpy / sympy numbers and as a sympy Symbol bound afterwards; "
+        "2^-45 x 2^45; times given as float / int / numpy / sympy numbers and as a sympy Symbol bound afterwards; NUMBER TYPES on "
+        "every API (term / sum / derivative / splice): time as Python int / bool / Fraction, sympy Rational / Float / Integer, numpy "
+        "float64 / float32 / int64 / int32; coefficients as Python int / bool / complex / Fraction, numpy float64 / float32 / "
+        "complex128 / complex64 / int64 / int32 (one type per term or mixed); n_steps as numpy int64 / int32 / uint8 / intp, sympy "
+        "Integer, True; length / position as numpy ints / sympy Integers; histories in which only the TYPE of the time / a "
+        "coefficient / n_steps changes between calls on the same objects (equal values, equal hashes); "
         "Hamiltonians with 0-14 terms (constant / duplicate (adjacent and non-adjacent) / zero / complex / tiny "
         "coefficients included; list, tuple or a bare PauliTerm), steps 1-9; derivative "
         "cases with random Gaussian-integer observables and states; HISTORIES of 3-7 calls on the same PauliTerm / "
@@ -61,10 +66,23 @@ TRUSTED = [
     "additionally uses exp(-i a P) = cos(a) 1 - i sin(a) P for a Pauli string P (P^2 = 1; theorem exp_pauli) with the tight "
     "tolerance 1e-11 (1 + |a|): four orders of magnitude above the float noise measured on the unchanged code (2e-15)",
     "Circuit.bind (used to give a symbolic time its value) substitutes the symbol in every gate parameter (property C06)",
+    "number types: float(p) of a gate parameter of any number type (Fraction, sympy Rational / Float / Integer, numpy scalar) is the number "
+    "it stands for up to double rounding; arithmetic between a numpy float32 and Python numbers stays float32 (NEP 50) and is exact "
+    "for the short dyadic values generated with that type",
 ]
 ASSUMPTIONS = ["PauliTerm._ops has distinct keys and no identity entries (dict invariant established by the constructor)",
-               "n_steps >= 1 is a Python int; coefficients are Python int/float/complex (not numpy scalars or sympy expressions); "
-               "the time is a Python / numpy / sympy real number or (term and sum only) a sympy Symbol",
+               "number types (established on the unchanged library): the time is a Python int / float / bool / Fraction, a sympy Rational / "
+               "Float / Integer, a numpy real scalar or (term and sum only) a sympy Symbol; a coefficient is a Python int / float / bool / "
+               "complex / Fraction or a numpy scalar (sympy numbers as coefficients are refused: AttributeError 'imag' / 'real' - out of "
+               "domain); n_steps >= 1 is a Python int / True, a numpy integer or a sympy Integer (float, Fraction, numpy bool: TypeError)",
+               "a call that hands over a sympy number AND a numpy scalar is refused by sympy 1.9 under numpy 2 (ValueError), a sympy time "
+               "with n_steps=True by sympy (TypeError) - out of domain, "
+               "not generated; with a numpy scalar anywhere the gate parameters are numpy scalars and the returned circuit has no matrix "
+               "(known finding numpy-scalar-gate-parameter-no-matrix: judged with Python-float copies of the parameters, then reported)",
+               "numpy float32 / complex64 (time or coefficient): numpy keeps float32 against Python numbers, so 2 (t / n_steps) c and, in the "
+               "derivative, the shift pi / (4 r) are computed in float32.  Generated for term / sum with short dyadic values, no "
+               "rational-circle base and 2^k steps (every product exactly representable); NOT generated for the derivative, whose "
+               "parameter shift would be rounded to float32 (the identity then holds to 1e-7 only)",
                "PauliTerm.coefficient and PauliSum.terms are public attributes: a caller may reassign them between calls"]
 
 H_FD = 1e-3
@@ -87,7 +105,23 @@ def _tau(base):
     return 2.0 * math.atan2(float(unrat(base[1])), float(unrat(base[0])))
 
 
+NP_CTYPES = ("npfloat", "npcomplex", "npfloat32", "npcomplex64", "npint64", "npint32")
+NP_TTYPES = ("npfloat", "npint", "npfloat32", "npint32")
+NP_STYPES = ("npint64", "npint32", "npuint8", "npintp")
+PLAIN_CTYPES = ("bool", "Fraction")          # accepted by the unchanged library AND the gate built from them has a matrix
+PLAIN_TTYPES = ("bool", "Fraction", "sympyFloat", "sympyInteger")
+
+
+def _f32_exact(x):
+    import numpy as np
+    with warnings.catch_warnings():
+        warnings.simplefilter("ignore")
+        return float(np.float32(x)) == x
+
+
 def _coeff(t):
+    """the coefficient object handed to PauliTerm.  ctype names the NUMBER TYPE; a type that cannot hold the value exactly falls
+    back to the Python float / complex (so the case means the same whatever the type)"""
     re, im = unrat(t["coeff"][0]), unrat(t["coeff"][1])
     ct = t.get("ctype", "float")
     if ct == "int":
@@ -100,6 +134,21 @@ def _coeff(t):
     if ct == "npcomplex":
         import numpy as np
         return np.complex128(complex(float(re), float(im)))
+    if ct == "bool" and im == 0 and re in (0, 1):
+        return bool(re)
+    if ct == "Fraction" and im == 0:
+        return Fraction(float(re))       # the value of the double the float route hands over
+    if ct in ("npint64", "npint32") and im == 0 and Fraction(re).denominator == 1 and abs(re) < 2 ** 31:
+        import numpy as np
+        return (np.int64 if ct == "npint64" else np.int32)(int(re))
+    if ct == "npfloat32" and im == 0 and _f32_exact(float(re)):
+        import numpy as np
+        return np.float32(float(re))
+    if ct == "npcomplex64" and _f32_exact(float(re)) and _f32_exact(float(im)):
+        import numpy as np
+        return np.complex64(complex(float(re), float(im)))
+    if im != 0:
+        return complex(float(re), float(im))
     return float(re)
 
 
@@ -118,6 +167,11 @@ def _time_arg(c):
     f = unrat(c["t"])
     if tt == "npfloat":
         return np.float64(v), v, None
+    if tt == "sympyFloat":
+        return sympy.Float(v), v, None
+    if tt == "npfloat32":
+        assert _f32_exact(v), "a float32 time must hold the value exactly"
+        return np.float32(v), v, None
     if tt == "symbol":
         # "sym": name of the symbol ("dummy:x" = sympy.Dummy("x")); "sym_form": the time is s, 2*s or s + 1
         name = c.get("sym", "t")
@@ -137,7 +191,34 @@ def _time_arg(c):
         return np.int64(int(f)), v, None
     if tt == "sympy":
         return sympy.Rational(f.numerator, f.denominator), v, None
+    if tt == "Fraction":
+        return Fraction(f), v, None
+    if tt == "bool":
+        assert f in (0, 1)
+        return bool(f), v, None
+    if tt == "sympyInteger":
+        assert f.denominator == 1
+        return sympy.Integer(int(f)), v, None
+    if tt == "npint32":
+        assert f.denominator == 1
+        return np.int32(int(f)), v, None
     raise AssertionError("unknown ttype " + tt)
+
+
+def _steps_arg(c):
+    """n_steps as the caller hands it over: a Python int, or (c["stype"]) a numpy integer / sympy Integer / True for 1"""
+    n = c["steps"]
+    st = c.get("stype")
+    if not st:
+        return n
+    import numpy as np
+    if st == "bool":
+        return True if n == 1 else n
+    if st == "sympyInteger":
+        import sympy
+        return sympy.Integer(n)
+    t = {"npint64": np.int64, "npint32": np.int32, "npuint8": np.uint8, "npintp": np.intp}[st]
+    return t(n) if n <= np.iinfo(t).max else n
 
 
 def _bound(circ, sym, v):
@@ -356,10 +437,11 @@ def _run_one(c, ctx):
     else:
         ham = ctx.ham(c, terms)
     steps = c["steps"]
+    steps_arg = _steps_arg(c)
     if k == "sum":
         try:
             with _guard():
-                raw = ev.time_evolution(ham, targ, n_steps=steps)
+                raw = ev.time_evolution(ham, targ, n_steps=steps_arg)
         except ValueError:
             return {"err": "err:value"}
         _sized([raw])
@@ -368,7 +450,7 @@ def _run_one(c, ctx):
         concat = []
         for _ in range(steps):
             for t in terms:
-                concat += _canon_circuit(_bound(ev.time_evolution_for_term(t, targ / steps), sym, time))
+                concat += _canon_circuit(_bound(ev.time_evolution_for_term(t, targ / steps_arg), sym, time))
         act = _active(c, [circ])
         lift = _Lifter(act)
         out = {"circuit": _canon_circuit(circ), "n_qubits": circ.n_qubits, "U": _cm(lift.unitary(circ)),
@@ -382,7 +464,7 @@ def _run_one(c, ctx):
     if k == "deriv":
         try:
             with _guard():
-                circuits, factors = ev.time_evolution_derivatives(ham, targ, n_steps=steps)
+                circuits, factors = ev.time_evolution_derivatives(ham, targ, n_steps=steps_arg)
         except ValueError:
             return {"err": "err:value"}
         except ZeroDivisionError:
@@ -396,7 +478,7 @@ def _run_one(c, ctx):
         try:
             for name, d in (("m2", -2), ("m1", -1), ("p1", 1), ("p2", 2)):
                 with _guard():
-                    shifted = ev.time_evolution(ham, time + d * H_FD, n_steps=steps)
+                    shifted = ev.time_evolution(ham, time + d * H_FD, n_steps=steps)   # (plain Python numbers: the reference)
                 _sized([shifted])
                 e = _expect(obs, lift.unitary(shifted), psi)
                 fd[name] = [e.real, e.imag]
@@ -434,6 +516,12 @@ def run_impl(c):
                 return Circuit(ops)
             rep = build(c["rep"])
             diff = rep if c.get("alias") else build(c["diff"])
+            lt = c.get("ltype")
+            if lt:   # length / position as numpy integers / sympy Integers
+                import numpy as np
+                import sympy
+                cast = {"npint64": np.int64, "npint32": np.int32, "npuint8": np.uint8, "sympyInteger": sympy.Integer}[lt]
+                c = dict(c, length=cast(c["length"]), position=cast(c["position"]))
             try:
                 r = ev._generate_circuit_sequence(rep, diff, c["length"], c["position"])
             except ValueError:
@@ -653,10 +741,11 @@ def _describe(c):
     k = c["kind"]
     tt = c.get("ttype", "float")
     if k == "term":
-        return f"time_evolution_for_term({c['coeff']}*{c['ops']} [object {c.get('key')}], t={c['t']} as {tt})"
-    ts = [(t["coeff"], t["ops"], t.get("key")) for t in c["terms"]]
+        return f"time_evolution_for_term({c['coeff']}*{c['ops']} as {c.get('ctype', 'float')} [object {c.get('key')}], t={c['t']} as {tt})"
+    ts = [(t["coeff"], t.get("ctype", "float"), t["ops"], t.get("key")) for t in c["terms"]]
     f = "time_evolution" if k == "sum" else "time_evolution_derivatives"
-    return f"{f}({ts} [object {c.get('hkey')}{', listing changed by ' + c['hmut'] if c.get('hmut') else ''}], t={c['t']} as {tt}, n_steps={c['steps']})"
+    return (f"{f}({ts} [object {c.get('hkey')}{', listing changed by ' + c['hmut'] if c.get('hmut') else ''}], t={c['t']} as {tt}, "
+            f"n_steps={c['steps']}{' as ' + c['stype'] if c.get('stype') else ''})")
 
 
 def oracle(c, out):
@@ -664,7 +753,8 @@ def oracle(c, out):
     res = _oracle(c, out)
     if res is None and isinstance(out, dict) and out.get("matrix_error"):
         # everything else held (with Python-float copies of the gate parameters), but the circuit AS RETURNED has no matrix
-        if c.get("ttype") in ("npfloat", "npint") or any(t.get("ctype") in ("npfloat", "npcomplex") for t in ([c] if c["kind"] == "term" else c["terms"])):
+        if (c.get("ttype") in NP_TTYPES or c.get("stype") in NP_STYPES
+                or any(t.get("ctype") in NP_CTYPES for t in ([c] if c["kind"] == "term" else c["terms"]))):
             return ("numpy-scalar-gate-parameter-no-matrix", f"{_describe(c)}: the circuit is built, but its matrix cannot be taken: {out['matrix_error']}")
         return ("gate-matrix-raises", f"{_describe(c)}: {out['matrix_error']}")
     return res
@@ -676,13 +766,18 @@ def _oracle(c, out):
         return ("unexpected-exception", f"implementation raised {out['exc']}: {out.get('msg')}")
     k = c["kind"]
     if k == "hist":
+        known = None
         for i, (sub, so) in enumerate(zip(c["calls"], out["calls"])):
             res = oracle(sub, so)
+            if res and res[0] == "numpy-scalar-gate-parameter-no-matrix":
+                # the known finding (everything else held on this call): remembered, the later calls are still judged
+                known = known or (res[0], f"call {i} of a history on shared objects: {res[1]}")
+                continue
             if res:
                 prev = "; ".join(_describe(s) + (f" then result modified by the caller ({s['mut']})" if s.get("mut") else "")
                                  for s in c["calls"][max(0, i - 2):i])
                 return ("history:" + res[0], f"call {i} of a history on shared objects, {_describe(sub)}, after [{prev}]: {res[1]}")
-        return None
+        return known
     if k == "seq":
         if c["position"] >= c["length"]:
             return None if out.get("err") else ("sequence-accepts-bad-position", "position >= length accepted")
@@ -1152,7 +1247,7 @@ def _variant_deriv(rng, i):
 # ---- histories -----------------------------------------------------------------------------------
 SCENARIOS = ["time_hash", "coeff_nudge_same", "coeff_nudge_fresh", "coeff_imag_same", "steps", "order", "deriv_time",
              "deriv_coeff", "result_mut_term", "result_mut_sum", "result_mut_deriv", "add_drop", "coeff_hash", "mixed",
-             "pauli_swap", "ising_flag"]
+             "pauli_swap", "ising_flag", "type_twins"]
 NUDGE = Fraction(1, 2 ** 23)
 
 
@@ -1171,6 +1266,7 @@ class _Hist:
         self.steps = rng.randrange(1, 4)
         self.hkey = 0
         self.hmut = None
+        self.ttype = self.stype = None     # number types of the time / of n_steps (None: Python float / int)
         self.calls = []
         self.obs, self.psi = _obs_psi(rng, n)
 
@@ -1199,6 +1295,10 @@ class _Hist:
                 self.hmut = None
             if kind == "deriv":
                 c["obs"], c["psi"] = self.obs, self.psi
+            if self.stype and (self.stype != "bool" or self.steps == 1):
+                c["stype"] = self.stype
+        if self.ttype:
+            c["ttype"] = self.ttype
         if mut:
             c["mut"] = mut
         self.calls.append(c)
@@ -1395,6 +1495,42 @@ def _history(rng, scenario, big):
         h.relisted()
         h.call("sum")
         h.call("deriv")
+    elif scenario == "type_twins":
+        # the same objects and the same VALUES from call to call: only the NUMBER TYPE of the time, of one coefficient (reassigned on
+        # the same PauliTerm object) or of n_steps changes - 1, 1.0, True, Fraction(1), numpy.int64(1), numpy.float32(1) are equal
+        # and hash alike
+        h.t = Fraction(r.choice([1, 1, 2, -1, 3]))
+        h.steps = r.choice([1, 2, 4])
+        k = anykey()
+        h.pool[k]["coeff"] = [r.choice([1, 1, 2, -1]), 0]
+        h.call("term", key=k)
+        h.call("sum")
+        for _ in range(r.randrange(3, 5)):
+            which = r.choice(["time", "coeff", "steps", "all"])
+            if which in ("time", "all"):
+                h.ttype = r.choice(["int", "npint", "sympy", "Fraction", "sympyFloat", "sympyInteger", "npfloat", "npfloat32", "npint32", None]
+                                   + (["bool"] if h.t == 1 else []))
+            if which in ("coeff", "all"):
+                h.pool[k]["ctype"] = r.choice(["int", "complex", "npfloat", "npcomplex", "Fraction", "npfloat32", "npcomplex64", "npint64",
+                                               "npint32", "float"] + (["bool"] if h.pool[k]["coeff"][0] == 1 else []))
+            if which in ("steps", "all"):
+                h.stype = r.choice(["npint64", "npint32", "npuint8", "npintp", "sympyInteger", None] + (["bool"] if h.steps == 1 else []))
+            f32 = h.ttype == "npfloat32" or any(h.pool[x]["ctype"] in ("npfloat32", "npcomplex64") for x in h.listing)
+            if h.ttype in NP_TTYPES or h.stype in NP_STYPES or any(h.pool[x]["ctype"] in NP_CTYPES for x in h.listing):
+                # (a sympy number next to a numpy scalar in one call is refused by sympy: see _unmix)
+                h.ttype = "Fraction" if h.ttype in SYMPY_TTYPES else h.ttype
+                h.stype = "npintp" if h.stype == "sympyInteger" else h.stype
+            if h.ttype in SYMPY_TTYPES and h.stype == "bool":
+                h.stype = None
+            h.call("term", key=k)
+            h.call("sum")
+            if not f32 and n < 3 and r.random() < 0.5:
+                h.call("deriv")
+        h.ttype = h.stype = None
+        h.pool[k]["ctype"] = "float"
+        h.call("term", key=k)
+        h.call("sum")
+        return {"kind": "hist", "calls": h.calls}
     else:  # mixed: the terms on their own, then inside the sum, then the derivative
         for k in h.listing[:2]:
             h.call("term", key=k)
@@ -1406,6 +1542,170 @@ def _history(rng, scenario, big):
         kind = r.choice(["term", "sum", "sum", "deriv"] if n < 3 else ["term", "sum", "sum"])
         h.call(kind, mut=r.choice([None, None, None, "append", "clear"]))
     return {"kind": "hist", "calls": h.calls}
+
+
+T_TYPES = ["int", "npfloat", "npint", "sympy", "Fraction", "bool", "sympyFloat", "sympyInteger", "npfloat32", "npint32"]
+C_TYPES = ["int", "complex", "npfloat", "npcomplex", "bool", "Fraction", "npfloat32", "npcomplex64", "npint64", "npint32"]
+S_TYPES = ["npint64", "npint32", "npuint8", "npintp", "bool", "sympyInteger"]
+F32 = ("npfloat32", "npcomplex64")
+
+
+def _set_time_type(rng, c, tt):
+    """give the case a time the type can hold exactly"""
+    if tt in ("int", "npint", "sympyInteger", "npint32"):
+        c["base"], c["t"] = None, rng.choice([-3, -2, -1, 1, 2, 3, 5, 7])
+    elif tt == "bool":
+        c["base"], c["t"] = None, rng.choice([1, 1, 1, 0])
+    elif tt in ("sympy", "Fraction"):
+        c["base"], c["t"] = None, rat(Fraction(rng.choice([-7, -3, -1, 1, 2, 3, 5]), rng.choice([1, 2, 3, 4, 8])))
+    elif tt == "npfloat32":
+        c["base"], c["t"] = None, rat(Fraction(rng.choice([-1, 1]) * rng.randrange(1, 4001), 1024))
+    c["ttype"] = tt
+    return c
+
+
+def _set_coeff_type(rng, t, ct):
+    """give the term a coefficient the type can hold exactly"""
+    if ct == "bool":
+        t["coeff"] = [1, 0]
+    elif ct in ("int", "npint64", "npint32"):
+        t["coeff"] = [rng.choice([-3, -2, -1, 1, 2, 3]), 0]
+    t["ctype"] = ct
+    return t
+
+
+def _f32_shape(rng, h):
+    """numpy keeps float32 against Python numbers: 2 * (time / n_steps) * coefficient is computed in float32 as soon as the time or
+    the coefficient is one.  Short dyadic values, no rational-circle base and 2^k steps keep every product exactly representable,
+    so that the circuit is the one the double computation gives"""
+    h["base"] = None
+    t = Fraction(unrat(h["t"]))
+    if t.denominator & (t.denominator - 1) or t.denominator > 1024 or abs(t.numerator) > 4096:
+        h["t"] = rat(Fraction(rng.choice([-1, 1]) * rng.randrange(1, 4001), 1024))
+    if "steps" in h:
+        h["steps"] = rng.choice([1, 2, 4, 8])
+    for t_ in (h["terms"] if "terms" in h else [h]):
+        co = Fraction(unrat(t_["coeff"][0]))
+        if co.denominator & (co.denominator - 1) or co.denominator > 16 or abs(co.numerator) > 64:
+            t_["coeff"] = [rat(Fraction(rng.randrange(-48, 49) or 1, 16)), t_["coeff"][1]]
+    return h
+
+
+SYMPY_TTYPES = ("sympy", "sympyFloat", "sympyInteger", "symbol")
+
+
+def _unmix(c):
+    """sympy 1.9 cannot take a numpy scalar (numpy 2): a call that hands over a sympy number AND a numpy scalar (sympy time with a
+    numpy coefficient / numpy n_steps, sympy n_steps with a numpy time / coefficient) is refused with ValueError - out of domain.
+    The sympy side of such a case is handed over as the equal Fraction / Python int instead."""
+    terms = c["terms"] if "terms" in c else [c]
+    has_np = c.get("ttype") in NP_TTYPES or c.get("stype") in NP_STYPES or any(t.get("ctype") in NP_CTYPES for t in terms)
+    if has_np:
+        if c.get("ttype") in SYMPY_TTYPES:
+            c["ttype"] = "Fraction" if c.get("base") is None else "float"
+            c.pop("sym", None)
+            c.pop("sym_form", None)
+        if c.get("stype") == "sympyInteger":
+            c["stype"] = "npintp"
+    if c.get("ttype") in SYMPY_TTYPES and c.get("stype") == "bool":   # (sympy number / True: TypeError of sympy's - out of domain)
+        c.pop("stype")
+    return c
+
+
+def _number_types(rng, big):
+    """the NUMBER TYPE of every number the caller hands over, on every API: the time (Python int / bool / Fraction, sympy Rational /
+    Float / Integer, numpy float64 / float32 / int64 / int32), the coefficients (Python int / bool / complex / Fraction, numpy
+    float64 / float32 / complex128 / complex64 / int64 / int32; sympy numbers are refused by the unchanged library with
+    AttributeError), n_steps (numpy int64 / int32 / uint8 / intp, sympy Integer, True) and length / position of the splice.
+    The values are ordinary and exactly representable, so every sentence is judged as for Python floats.  (With a numpy scalar
+    anywhere the gate parameters are numpy scalars and the circuit AS RETURNED has no matrix under numpy 2 / sympy 1.9: the known
+    finding numpy-scalar-gate-parameter-no-matrix, reported once everything else held.)"""
+    cases = []
+    for rep in range(3 if big else 1):
+        for tt in T_TYPES:
+            n = rng.randrange(1, 4)
+            c = _set_time_type(rng, _term_case(rng, _rand_ops(rng, n), n, exact=False), tt)
+            cases.append(_f32_shape(rng, c) if tt in F32 else c)
+            h = _set_time_type(rng, _ham(rng, n, rng.randrange(1, 4), rng.randrange(1, 5), exact=False), tt)
+            h["kind"] = "sum"
+            cases.append(_f32_shape(rng, h) if tt in F32 else h)
+            if tt not in F32:
+                n = rng.choice([1, 2, 2])
+                h = _set_time_type(rng, _ham(rng, n, rng.randrange(1, 4), rng.randrange(1, 4), exact=False), tt)
+                h["kind"] = "deriv"
+                h["obs"], h["psi"] = _obs_psi(rng, n)
+                cases.append(h)
+        for ct in C_TYPES:
+            n = rng.randrange(1, 4)
+            exact = ct not in F32 and rng.random() < 0.4
+            c = _set_coeff_type(rng, _term_case(rng, _rand_ops(rng, n), n, exact=exact), ct)
+            if exact and ct in ("bool", "int", "npint64", "npint32"):   # keep 2 m c an integer
+                c["t"] = rat(Fraction(rng.choice([1, 2, 3]), 2))
+            cases.append(_f32_shape(rng, c) if ct in F32 else c)
+            for kind in ("sum", "deriv"):
+                if kind == "deriv" and ct in F32:
+                    continue
+                n = rng.choice([1, 2, 2]) if kind == "deriv" else rng.randrange(1, 4)
+                h = _ham(rng, n, rng.randrange(1, 4), rng.randrange(1, 4), exact=False)
+                for t in h["terms"]:
+                    if rng.random() < 0.75:
+                        _set_coeff_type(rng, t, ct)
+                h["kind"] = kind
+                if kind == "deriv":
+                    h["obs"], h["psi"] = _obs_psi(rng, n)
+                cases.append(_f32_shape(rng, h) if ct in F32 else h)
+        # imaginary parts in numpy complex coefficients (complex64 is no subclass of Python's complex): rejected / negligible / constant
+        for ct in ("npcomplex64", "npcomplex", "npcomplex64"):
+            for im in rng.sample([Fraction(1, 2), Fraction(-1, 2), Fraction(-1), Fraction(2), Fraction(-5, 4), Fraction(1, 1024), Fraction(-3, 2 ** 16),
+                                  Fraction(1, 2 ** 40), Fraction(-1, 2 ** 45)], 4):
+                n = rng.randrange(1, 4)
+                c = _f32_shape(rng, _term_case(rng, _rand_ops(rng, n), n, exact=False, ctype=ct))
+                c["coeff"][1] = rat(im)
+                if rng.random() < 0.15:
+                    c["ops"] = []
+                cases.append(c)
+            h = _f32_shape(rng, _ham(rng, 2, rng.randrange(2, 4), rng.randrange(1, 4), exact=False))
+            h["kind"] = "sum"
+            t = rng.choice(h["terms"])
+            t["ctype"], t["coeff"] = ct, [t["coeff"][0], rat(rng.choice([Fraction(-1, 2), Fraction(1), Fraction(1, 2 ** 40)]))]
+            cases.append(h)
+        for st in S_TYPES:
+            for kind in ("sum", "deriv"):
+                n = rng.choice([1, 2, 2])
+                steps = 1 if st == "bool" else rng.randrange(1, 6)
+                h = _ham(rng, n, rng.randrange(1, 4), steps, exact=kind == "sum" and rng.random() < 0.4)
+                h["kind"], h["stype"] = kind, st
+                if kind == "deriv":
+                    h["obs"], h["psi"] = _obs_psi(rng, n)
+                cases.append(h)
+        # every number of one call in another type
+        for _ in range(12):
+            kind = rng.choice(["term", "sum", "sum", "deriv"])
+            n = rng.choice([1, 2, 2])
+            tt = rng.choice([x for x in T_TYPES if kind != "deriv" or x not in F32])
+            if kind == "term":
+                h = _term_case(rng, _rand_ops(rng, n), n, exact=False)
+            else:
+                h = _ham(rng, n, rng.randrange(1, 4), rng.randrange(1, 5), exact=False)
+                h["kind"] = kind
+                h["stype"] = rng.choice(S_TYPES)
+                if h["stype"] == "bool":
+                    h["steps"] = 1
+                if kind == "deriv":
+                    h["obs"], h["psi"] = _obs_psi(rng, n)
+            _set_time_type(rng, h, tt)
+            f32 = tt in F32
+            for t in (h["terms"] if kind != "term" else [h]):
+                ct = rng.choice([x for x in C_TYPES if kind != "deriv" or x not in F32])
+                _set_coeff_type(rng, t, ct)
+                f32 = f32 or ct in F32
+            cases.append(_f32_shape(rng, h) if f32 else h)
+        for lt in ["npint64", "npint32", "npuint8", "sympyInteger"]:
+            for _ in range(2):
+                sq = _seq_case(rng)
+                sq["ltype"] = lt
+                cases.append(sq)
+    return [_unmix(c) if c["kind"] != "seq" else c for c in cases]
 
 
 def corpus():
@@ -1494,6 +1794,14 @@ def corpus():
          "t": "3/4", "steps": 2, "base": None, "n": 1, "obs": obs1, "psi": psi1},
         {"kind": "deriv", "terms": [{"ops": [[0, "X"]], "coeff": ["3/536870912", 0], "ctype": "float"}, {"ops": [[0, "Z"]], "coeff": ["-1/268435456", 0], "ctype": "float"}],
          "t": "3/4", "steps": 2, "base": None, "n": 1, "obs": obs1, "psi": psi1},
+        # ---- number types: a Fraction time with Fraction / bool coefficients and a sympy Integer step count; float32 time and
+        #      complex64 coefficient with a numpy step count (known finding: the returned circuit has no matrix); a bool time
+        {"kind": "sum", "terms": [{"ops": zx, "coeff": ["3/4", 0], "ctype": "Fraction"}, {"ops": [[1, "Y"]], "coeff": [1, 0], "ctype": "bool"}],
+         "t": "5/3", "steps": 3, "base": None, "n": 2, "ttype": "Fraction", "stype": "sympyInteger"},
+        {"kind": "sum", "terms": [{"ops": zx, "coeff": ["-5/16", 0], "ctype": "npcomplex64"}, {"ops": [[0, "Y"]], "coeff": [2, 0], "ctype": "npint32"}],
+         "t": "37/64", "steps": 4, "base": None, "n": 2, "ttype": "npfloat32", "stype": "npuint8"},
+        {"kind": "deriv", "terms": [{"ops": [[0, "X"]], "coeff": ["1/2", 0], "ctype": "Fraction"}, {"ops": [[0, "Z"]], "coeff": [1, 0], "ctype": "bool"}],
+         "t": 1, "steps": 2, "base": None, "n": 1, "obs": obs1, "psi": psi1, "ttype": "bool", "stype": "npint64"},
     ]
 
 
@@ -1594,6 +1902,9 @@ def generate(rng, tier):
     # ---- histories on shared objects (each scenario occurs in every run)
     for i in range(6 * len(SCENARIOS) if big else 2 * len(SCENARIOS)):
         cases.append(_history(rng, SCENARIOS[i % len(SCENARIOS)], big))
+    # ---- number types of time / coefficients / n_steps on every API (a fresh generator: the streams above stay as they were)
+    import random as _random
+    cases += _number_types(_random.Random(rng.getrandbits(64)), big)
     return cases
 
 
@@ -1642,8 +1953,18 @@ def distribution(cases, outs):
         if c["kind"] != "seq":
             tt = c.get("ttype", "float")
             ttypes[tt] = ttypes.get(tt, 0) + 1
+    ctypes, stypes = {}, {}
+    for c in flat:
+        for t in (c.get("terms", []) if c["kind"] in ("sum", "deriv") else [c] if c["kind"] == "term" else []):
+            ctypes[t.get("ctype", "float")] = ctypes.get(t.get("ctype", "float"), 0) + 1
+        if c["kind"] in ("sum", "deriv"):
+            stypes[c.get("stype", "int")] = stypes.get(c.get("stype", "int"), 0) + 1
+        if c["kind"] == "seq" and c.get("ltype"):
+            stypes["splice:" + c["ltype"]] = stypes.get("splice:" + c["ltype"], 0) + 1
     return {"rejected_requests": rej, "register_widths": widths, "term_weights": weights, "n_steps": steps,
-            "hamiltonian_sizes": nterms, "time_types": ttypes, "calls_inside_histories": hist_calls,
+            "hamiltonian_sizes": nterms, "time_types": ttypes, "coefficient_types": ctypes, "n_steps_types": stypes,
+            "calls_whose_circuit_has_no_matrix_as_returned": sum(1 for o in flat_outs if isinstance(o, dict) and o.get("matrix_error")),
+            "calls_inside_histories": hist_calls,
             "calls_followed_by_caller_modifying_the_result": sum(1 for c in flat if c.get("mut")),
             "exact_matrix_comparisons": sum(1 for c in flat if c.get("base") is not None and c.get("active") is None),
             "max_circuits_in_a_derivative": max([len(o.get("circuits", [])) for o in flat_outs if isinstance(o, dict)] + [0])}
